@@ -470,6 +470,8 @@ def family(name, quick=True):
     elif name == "waits":
         out.append(("chain(5,1)", pipeline(retry_max=4, wait=["chain", [5, 1]], fail_until=99), []))
         out.append(("chain(1,4,2)", pipeline(retry_max=5, wait=["chain", [1, 4, 2]], fail_until=99), []))
+        # a chain whose last stage depends on the attempt number (it is given the run's attempt number, not a stage-local one)
+        out.append(("chain(1,1,incr(1,2,max=100))", pipeline(retry_max=6, wait=["chain_incr", [1, 1], 1, 2, 100], fail_until=99), []))
         out.append(("exp(1,2,max=100)", pipeline(retry_max=4, wait=["exp", 1, 2, 100], fail_until=99), []))
         out.append(("incr(6,-2,max=100)", pipeline(retry_max=4, wait=["incr", 6, -2, 100], fail_until=99), []))
         out.append(("incr(1,2,max=4)", pipeline(retry_max=5, wait=["incr", 1, 2, 4], fail_until=99), []))
